@@ -132,5 +132,9 @@ void harness_outnames(void) { struct { const char* outputPath; } options; size_t
     for (k = 0; k < PL; k++) { if (!outputName[k]) break; V_ASSERT(outputName[k] != '/', "no directory component in a created file name"); }
     for (k = 0; k < PL + 2; k++) { if (!headerName[k]) break; V_ASSERT(headerName[k] != '/', "no directory component in the header name"); }
     { size_t hl = strlen(headerName); V_ASSERT(hl >= 2 && headerName[hl - 2] == '.' && headerName[hl - 1] == 'h', "header is the base name with its extension replaced by .h"); }
+    /* the header is derived from the BASE NAME (not from the whole path: a '.' in a directory component must not matter) */
+    { char wanth[PL + 4]; size_t bl = n - i, j, cut = bl; for (j = 0; j < PL; j++) if (j < bl && opath[i + j] == '.') cut = j;
+      for (j = 0; j < PL; j++) if (j < cut) wanth[j] = opath[i + j]; wanth[cut] = '.'; wanth[cut + 1] = 'h'; wanth[cut + 2] = 0;
+      V_ASSERT(strcmp(headerName, wanth) == 0, "the header is the base name of the output path with its last extension replaced by .h"); }
     }
     V_WITNESS("end"); }
